@@ -44,6 +44,11 @@ fn api_bytes(r: &Ref, s: Suite, class: &str) -> Option<Vec<u8>> {
         "long237c" => Some([vec![b'a'; 236], vec![b'c']].concat()),
         "long300x" => Some([vec![b'a'; 299], vec![b'x']].concat()),
         "long300y" => Some([vec![b'a'; 299], vec![b'y']].concat()),
+        // api ids that are not UTF-8 and differ only in the ill-formed octets (and the replacement character itself)
+        "bin_ff" => Some([&[0xffu8, 0x01][..], b"_ID_"].concat()),
+        "bin_fe" => Some([&[0xfeu8, 0x01][..], b"_ID_"].concat()),
+        "bin_c0" => Some([&[0xc0u8, 0x01][..], b"_ID_"].concat()),
+        "bin_fffd" => Some([&[0xefu8, 0xbf, 0xbd, 0x01][..], b"_ID_"].concat()),
         _ => panic!("api class {class}"),
     }
 }
